@@ -5,13 +5,24 @@ with the Lean model `repo.step` (object map, error kind, UPLOADED CHUNK SET) and
 (2) targeted de-duplication cases: a file set with identical files, shared prefixes / suffixes and a block repeated inside one
 file is snapshotted by the owner at concurrency 1…8, then again by the owner, a clone and a shared-key user, then by an
 independent-key user, then modified — each step compared with the model and with the direct oracles.
+(3) racy uploads (`impl/histx.py::conc_case`): k = 2…4 REAL snapshot coroutines of several users overlap on one backend, pools of
+1–5 workers, every `exists` / `upload` call gated and released mostly observations-first, data with chunks repeated inside one
+command and shared between commands — so that several workers see one new chunk absent and all upload it.  The per-call trace is
+replayed by the concurrent model (`repo.conc`), which must accept it and count uploads / absent observations per (command, chunk)
+exactly as observed (`racy_upload_bounded`).
 Theorems: Properties/C07.lean (`name_injective`, `stored_once`, `exact_step`, `exact_after_history`, `exact_from_init`,
-`repeat_uploads_nothing`, `repeat_snapshot_uploads_nothing`, `shared_reuse`, `uploads_distinct`, `independent_no_alias`).
+`repeat_uploads_nothing`, `repeat_snapshot_uploads_nothing`, `shared_reuse`, `uploads_distinct`, `independent_no_alias`,
+`racy_upload_bounded`).
 
 Direct oracles on the REAL backend: chunk objects of every family == chunks referenced by its remaining snapshots (families
 with an un-cleaned injected orphan excepted); a chunk already stored is never uploaded again; a snapshot of unchanged data by
 the same / clone / shared user issues no chunk upload at all (`upload_count == 0`, `upload_payloads` unchanged); one
 (family, content) never lives under two locations; a snapshot never changes another family's objects.
+Racy executions: all uploads of one location decrypt to the same plaintext (`dedup:duplicate-upload-differs`); every upload follows
+an absent observation of the same worker pool, one upload per observation (`dedup:upload-without-absent-observation`); a command
+uploads one chunk at most once per worker and per occurrence in its data (`dedup:more-uploads-than-workers`, `…-than-occurrences`);
+a chunk stored before the execution is never uploaded (`dedup:present-chunk-uploaded-again`); every new chunk is uploaded by
+somebody (`dedup:new-chunk-never-uploaded`); at the end the chunk objects of every family are exactly the referenced ones.
 """
 import json
 import multiprocessing as mp
@@ -127,11 +138,14 @@ def run(out, drv, info):
     out.rule = ('history cases as in C02 (own seed label), non-trivial = some snapshot whose data repeats a block inside itself or shares ≥ 1 chunk with data its family already '
                 'stores; de-duplication cases = file set with identical files / shared prefix / shared suffix at a shifted offset / block repeated inside a file / zero runs, '
                 '(min,max) from 5 settings, concurrency 1–8, first snapshot, repeats by owner / clone / shared-key user, independent-key user, modified data; '
-                'non-trivial = the chunk stream of some step contains a repeated chunk; distinct = hash of the case summary')
+                'non-trivial = the chunk stream of some step contains a repeated chunk; distinct = hash of the case summary; '
+                'racy-upload cases = 2–4 overlapping real snapshot coroutines (pools of 1–5 workers, gated backend calls released observations-first / randomly / one command first, '
+                'data with zero runs, repeated blocks and blocks shared between the commands, 0–2 snapshots stored before), non-trivial = ≥ 1 chunk location was uploaded more than once')
     out.assumptions = ['ideal cryptography: digest = content id, MAC names injective per key family (DESIGN.md §4)',
                        'chunk boundaries are a pure function of content and family key (C10); crash-free histories',
-                       'inside one FIRST snapshot two workers may upload the same new chunk twice (one object); the oracles only forbid uploads of chunks stored before the command']
+                       'inside one FIRST snapshot two workers may upload the same new chunk twice (one object): the sequential model steps of (1), (2) compare upload SETS; the racy-upload cases (3) replay every single call on the concurrent model and bound the duplicates (racy_upload_bounded)']
     X.run(out, drv, 'C07', n_hist, n_ops, ORACLES, X.c07_nontrivial, EXTRA)
+    X.run_conc(out, drv, 'C07-conc', 48 if quick else 600, 'c07')
     n = 60 if quick else 900
     with mp.get_context('fork').Pool(min(16, os.cpu_count() or 4)) as pool:
         results = pool.map(dedup_case, [(out.seed, i) for i in range(n)], chunksize=1)
@@ -156,6 +170,8 @@ def _replay(path, drv):
     rp = d.get('replay', d)
     if rp.get('kind') == 'history':
         return X.replay_history(rp, drv, ORACLES, EXTRA)
+    if rp.get('kind') == 'conc':
+        return X.replay_conc(rp, drv, 'c07')
     if rp.get('kind') == 'dedup':
         res = dedup_case((rp.get('seed', 0), rp['idx']))
         print('summary', res['summary'])
